@@ -209,11 +209,16 @@ def _point(draw, m):
     return [draw(S.fl(0.1, 20.0)) for _ in range(n_s)], draw(S.fl(0.0, 20.0))
 
 
-def _vals(draw, names):
+def _vals(draw, names, zero_ok=False):
     vtype = draw(st.sampled_from(["float", "float", "int", "np"]))
     if vtype == "int":
-        return vtype, [draw(st.integers(1, 9)) for _ in names]
-    return vtype, [draw(S.fl(0.05, 5.0)) for _ in names]
+        vals = [draw(st.integers(0 if zero_ok else 1, 9)) for _ in names]
+    else:
+        vals = [draw(S.fl(0.05, 5.0)) for _ in names]
+        if zero_ok:
+            # a parameter switched off: exactly zero is a value like any other
+            vals = [0.0 if draw(st.integers(0, 5)) == 0 else v for v in vals]
+    return vtype, vals
 
 
 def gen_model(draw):
@@ -226,7 +231,7 @@ def gen_model(draw):
 def gen_assign_positional(draw, m):
     names = list(m["params"])
     form = draw(st.sampled_from(["list", "tuple", "array", "array_col"]))
-    vtype, vals = _vals(draw, names)
+    vtype, vals = _vals(draw, names, zero_ok=bool(m.get("probe")))
     if form.startswith("array"):
         vtype = "float"
     x, t = _point(draw, m)
@@ -236,7 +241,7 @@ def gen_assign_positional(draw, m):
 def gen_assign_named(draw, m):
     names = list(draw(st.permutations(m["params"])))
     form = draw(st.sampled_from(["pairs", "pairs", "pairs_tuple", "dict", "dict", "dict"]))
-    vtype, vals = _vals(draw, names)
+    vtype, vals = _vals(draw, names, zero_ok=bool(m.get("probe")))
     op = {"op": "assign", "form": form, "names": names, "values": vals, "vtype": vtype}
     if form == "dict":
         op["keykinds"] = [draw(st.sampled_from(["str", "sym"])) for _ in names]
@@ -247,7 +252,7 @@ def gen_assign_named(draw, m):
 def gen_assign_partial(draw, m):
     params = m["params"]
     names = draw(st.lists(st.sampled_from(params), min_size=1, max_size=max(1, len(params) - 1), unique=True))
-    vtype, vals = _vals(draw, names)
+    vtype, vals = _vals(draw, names, zero_ok=bool(m.get("probe")))
     op = {"op": "assign", "form": "partial", "names": names, "values": vals, "vtype": vtype,
           "keykinds": [draw(st.sampled_from(["str", "sym"])) for _ in names]}
     op["x"], op["t"] = _point(draw, m)
